@@ -261,8 +261,8 @@ func (s *Script) gen(g int) *Gen {
 // processor, exporters.
 func (g *Gen) comps() []string {
 	var out []string
-	if g.Ext {
-		out = append(out, extType+"/x0")
+	for i := 0; i < g.numExt(); i++ {
+		out = append(out, fmt.Sprintf("%s/x%d", extType, i))
 	}
 	for i := 0; i < g.NRecv; i++ {
 		out = append(out, fmt.Sprintf("%s/r%d", recvType, i))
@@ -276,13 +276,20 @@ func (g *Gen) comps() []string {
 	return out
 }
 
+func (g *Gen) numExt() int {
+	n := g.NExt
+	if n == 0 && g.Ext {
+		n = 1
+	}
+	if n > 3 {
+		n = 3
+	}
+	return n
+}
+
 // pipeComps are the components that get a status-reporting host (extensions do not).
 func (g *Gen) pipeComps() []string {
-	c := g.comps()
-	if g.Ext {
-		return c[1:]
-	}
-	return c
+	return g.comps()[g.numExt():]
 }
 
 func pick(ids []string, i int) string {
@@ -341,6 +348,12 @@ func (g *Gen) yaml(n int) string {
 	procs := sec("processors", procType)
 	exps := sec("exporters", expType)
 	exts := sec("extensions", extType)
+	if g.ExtRev {
+		exts = append([]string(nil), exts...)
+		for i, j := 0, len(exts)-1; i < j; i, j = i+1, j-1 {
+			exts[i], exts[j] = exts[j], exts[i]
+		}
+	}
 	if g.Kind == "unknown-key" {
 		b.WriteString("bogus_section:\n  a: 1\n")
 	}
